@@ -233,7 +233,55 @@ def t_c16(V, fn, params):
     return [("the constraint functions return verdicts instead of raising", cl is not None)]
 
 
-FUNCS = {"t_c16": t_c16, "snapshot_dtype": snapshot_dtype, "buffering_arith": buffering_arith, "t_resize": t_resize, "t_strides": t_strides, "t_broadcast": t_broadcast,
+def main_config(V, **params):
+    """every way of naming a configuration file on the command line ends in a compilation or a diagnosis (harness/c18.py main_cli: the real main()
+    up to the architecture object, file system answered by a symbolic Boolean) - an exception other than VelaError escaping main() is a traceback"""
+    from harness import c18
+
+    cl = c18.main_cli(V, **params)
+    bad = [c for c in cl if "internal" in c[0]]
+    return bad or [("main() ends with a status or a diagnosis", True)]
+
+
+def t_quant_scales(V):
+    """the constraints on quantisation scales cope with every representation a model file yields: a scalar (Python float or np.float32) or a
+    per-axis vector of one or several entries, for input and output independently, with ordinary, tiny, huge and infinite values: they return a
+    verdict - the scales of a per-axis quantised tensor are an array, and the truth value of an array raises"""
+    import numpy as np
+    from harness.c16 import _mods, _T
+
+    so, sem, sh = _mods()
+    vals = {"one": 1.0, "tiny": 1e-45, "huge": 3e38, "inf": float("inf")}
+
+    def scale(tag):
+        form = V.choice(tag + "_form", ["float", "float32", "vector1", "vector2", "vector3"])
+        v = vals[V.choice(tag + "_value", sorted(vals))]
+        if form == "float":
+            return v
+        if form == "float32":
+            return np.float32(v)
+        return np.array([v] + [0.5] * (int(form[-1]) - 1), dtype=np.float32)
+
+    class Q:
+        def __init__(self, s):
+            self.scale_f32, self.zero_point = s, 0
+
+    class T(_T):
+        def is_quantized(self):
+            return True
+
+    ifm, ofm = T([1, 4, 4, 3]), T([1, 4, 4, 3])
+    ifm.quantization, ofm.quantization = Q(scale("ifm")), Q(scale("ofm"))
+    op = _O(ifm=ifm, ifm2=None, ofm=ofm, weights=None, get_ifm_ifm2_weights_ofm=lambda: (ifm, None, None, ofm), name="op")
+    S = sem.TFLiteSemantic
+    import warnings
+
+    with warnings.catch_warnings():
+        warnings.simplefilter("ignore")
+        return _run(S.constraint_quant_scale_inf, op) + _run(S.constraint_tens_quant_scale, op)
+
+
+FUNCS = {"t_quant_scales": t_quant_scales, "main_config": main_config, "t_c16": t_c16, "snapshot_dtype": snapshot_dtype, "buffering_arith": buffering_arith, "t_resize": t_resize, "t_strides": t_strides, "t_broadcast": t_broadcast,
          "t_tconv": t_tconv, "main_errors": main_errors}
 
 
@@ -250,8 +298,12 @@ def instances(tier, seed):
         out.append(dict(key="constraints_total/broadcast/%d_%d_%d" % (r1, r2, ro), fn="t_broadcast", params=dict(r1=r1, r2=r2, ro=ro)))
     for p in ("SAME", "VALID"):
         out.append(dict(key="constraints_total/tconv/%s" % p, fn="t_tconv", params=dict(padding=p)))
-    from harness import c16
+    out.append(dict(key="constraints_total/quant_scales", fn="t_quant_scales", params={}))
+    from harness import c16, c18
 
+    for inst in c18.instances(tier, seed):
+        if inst["fn"] == "main_cli":
+            out.append(dict(key="main_config/" + inst["key"], fn="main_config", params=inst["params"]))
     for inst in c16.instances(tier, seed):
         if inst["fn"] in ("c_mean", "c_argmax", "c_transpose", "s_split", "s_concat", "s_slice_ranges", "s_conv_groups", "s_mean_axis", "c_depth_multiplier", "c_filter"):
             out.append(dict(key="constraints_total/c16/" + inst["key"], fn="t_c16", params=dict(fn=inst["fn"], params=inst["params"])))
